@@ -370,6 +370,9 @@ def call(px, st, name, t, args, fid, fn):
             return [(st, ('getres', subj, k - 1))]
     if n.endswith('slice::<impl [T]>::get') and args[1][0] == 'int':
         return [(st, ('getres', px.subject_of(st, args[0]), args[1][1]))]
+    if re.search(r'impl std::ops::Index<I> for \[T; N\]>::index$|impl std::ops::Index<I> for \[T\]>::index$', n) and len(args) == 2 \
+            and args[1][0] == 'adt' and args[1][1].endswith('RangeFull'):
+        return [(st, args[0])]                 # x[..]: the whole array / slice
     if n.endswith('impl std::ops::Index<I> for [T]>::index') or n.endswith('impl std::ops::Index<I> for str>::index'):
         subj = px.subject_of(st, args[0])
         r = args[1]
